@@ -5,7 +5,9 @@ package memfs
 import "sync"
 
 // VerifLockHook, when set, is called immediately before every RWMutex acquisition of this package
-// (write is true for Lock, false for RLock). It is only compiled with the verif build tag.
+// (write is true for Lock, false for RLock). A nil mutex marks a scheduling point where no lock is awaited,
+// such as the point before a TryLock.
+// It is only compiled with the verif build tag.
 var VerifLockHook func(mu *sync.RWMutex, write bool) //nolint:gochecknoglobals // Verification hook.
 
 func verifYield(mu *sync.RWMutex, write bool) {
